@@ -43,6 +43,26 @@ pub struct AddrMutSigner {
     #[validate(address = &KEY_A)]
     pub f: Signer<Mut<AccountInfo>>,
 }
+// addresses with extreme bit patterns: all zero (= System::ID, also what an unset key in account data reads as) and all ones
+const KEY_F: Pubkey = Pubkey::new_from_array([255; 32]);
+#[derive(AccountSet, Debug)]
+#[account_set(skip_default_idl)]
+pub struct AddrZero {
+    #[validate(address = &System::ID)]
+    pub f: AccountInfo,
+}
+#[derive(AccountSet, Debug)]
+#[account_set(skip_default_idl)]
+pub struct AddrZeroMutSigner {
+    #[validate(address = &System::ID)]
+    pub f: Signer<Mut<AccountInfo>>,
+}
+#[derive(AccountSet, Debug)]
+#[account_set(skip_default_idl)]
+pub struct AddrOnes {
+    #[validate(address = &KEY_F)]
+    pub f: AccountInfo,
+}
 #[derive(AccountSet, Debug)]
 #[account_set(skip_default_idl)]
 pub struct Nested {
@@ -205,6 +225,9 @@ fam! {
     "Aa S" => ViaDefault<AddrSigner>,
     "Aa M S" => ViaDefault<AddrMutSigner>,
     "Aa S ." => ViaDefault<Nested>,
+    "Az" => ViaDefault<AddrZero>,
+    "Az M S" => ViaDefault<AddrZeroMutSigner>,
+    "Af" => ViaDefault<AddrOnes>,
     "S b" => ViaDefault<Box<Signer<AccountInfo>>>,
     "b S" => ViaDefault<Signer<Box<AccountInfo>>>,
     "SA M b S" => ViaDefault<Signer<Box<Mut<SystemAccount>>>>,
@@ -339,6 +362,8 @@ fn sig_of(layers: &[i128]) -> Option<String> {
             "A" => {
                 if eq(KEY_A) { Some("Aa".into()) }
                 else if eq(KEY_B) { Some("Ab".into()) }
+                else if eq(System::ID) { Some("Az".into()) }
+                else if eq(KEY_F) { Some("Af".into()) }
                 else if eq(Rent::id()) { Some("Yrent".into()) }
                 else if eq(InstructionsSysvar::id()) { Some("Yinst".into()) }
                 else if eq(SlotHashesSysvar::id()) { Some("Yslot".into()) }
@@ -379,7 +404,7 @@ fn main() {
         // print the constants the generator needs
         for (sig, _, _) in family() { println!("sig {sig}"); }
         let p = |n: &str, k: Pubkey| println!("key {n} {}", k.to_bytes().iter().map(|b| b.to_string()).collect::<Vec<_>>().join(" "));
-        p("sys", System::ID); p("own", PROG_ID); p("a", KEY_A); p("b", KEY_B); p("rent", Rent::id());
+        p("sys", System::ID); p("own", PROG_ID); p("a", KEY_A); p("b", KEY_B); p("z", System::ID); p("f", KEY_F); p("rent", Rent::id());
         p("inst", InstructionsSysvar::id()); p("slot", SlotHashesSysvar::id());
         return;
     }
